@@ -36,6 +36,10 @@ func c06BuildSchema(stamp string) *graphql.Schema {
 		"GREEN": &graphql.EnumValueConfig{Value: 2},
 		"BLUE":  &graphql.EnumValueConfig{Value: "b-internal"},
 	}})
+	sw := graphql.NewEnum(graphql.EnumConfig{Name: "Switch", Values: graphql.EnumValueConfigMap{
+		"ON":  &graphql.EnumValueConfig{Value: "ON"},
+		"OFF": &graphql.EnumValueConfig{Value: "OFF"},
+	}})
 	in := graphql.NewInputObject(graphql.InputObjectConfig{Name: "In", Fields: graphql.InputObjectConfigFieldMap{
 		"a": &graphql.InputObjectFieldConfig{Type: graphql.Int, DefaultValue: 7},
 		"b": &graphql.InputObjectFieldConfig{Type: graphql.String},
@@ -78,12 +82,17 @@ func c06BuildSchema(stamp string) *graphql.Schema {
 		"d": &graphql.Field{Type: graphql.String, Args: graphql.FieldConfigArgument{"n": &graphql.ArgumentConfig{Type: graphql.Int, DefaultValue: 5}}, Resolve: echo("d")},
 		"g": &graphql.Field{Type: graphql.String, Args: graphql.FieldConfigArgument{
 			"p": &graphql.ArgumentConfig{Type: graphql.Int}, "q": &graphql.ArgumentConfig{Type: graphql.Int}}, Resolve: echo("g")},
-		"s": &graphql.Field{Type: graphql.String, Args: graphql.FieldConfigArgument{"t": &graphql.ArgumentConfig{Type: graphql.String}}, Resolve: echo("s")},
-		"i": &graphql.Field{Type: graphql.String, Args: graphql.FieldConfigArgument{"id": &graphql.ArgumentConfig{Type: graphql.ID}}, Resolve: echo("i")},
+		"s":     &graphql.Field{Type: graphql.String, Args: graphql.FieldConfigArgument{"t": &graphql.ArgumentConfig{Type: graphql.String}}, Resolve: echo("s")},
+		"ratio": &graphql.Field{Type: graphql.String, Args: graphql.FieldConfigArgument{"x": &graphql.ArgumentConfig{Type: graphql.Float}}, Resolve: echo("ratio")},
+		"req":   &graphql.Field{Type: graphql.String, Args: graphql.FieldConfigArgument{"n": &graphql.ArgumentConfig{Type: graphql.NewNonNull(graphql.Int)}}, Resolve: echo("req")},
+		"li":    &graphql.Field{Type: graphql.String, Args: graphql.FieldConfigArgument{"xs": &graphql.ArgumentConfig{Type: graphql.NewList(graphql.Int)}}, Resolve: echo("li")},
+		"e2":    &graphql.Field{Type: graphql.String, Args: graphql.FieldConfigArgument{"c": &graphql.ArgumentConfig{Type: sw}}, Resolve: echo("e2")},
+		"b2":    &graphql.Field{Type: graphql.String, Args: graphql.FieldConfigArgument{"v": &graphql.ArgumentConfig{Type: graphql.Boolean}}, Resolve: echo("b2")},
+		"i":     &graphql.Field{Type: graphql.String, Args: graphql.FieldConfigArgument{"id": &graphql.ArgumentConfig{Type: graphql.ID}}, Resolve: echo("i")},
 		"e": &graphql.Field{Type: color, Args: graphql.FieldConfigArgument{"c": &graphql.ArgumentConfig{Type: color}},
 			Resolve: func(p graphql.ResolveParams) (interface{}, error) { return p.Args["c"], nil }},
-		"l": &graphql.Field{Type: graphql.String, Args: graphql.FieldConfigArgument{"xs": &graphql.ArgumentConfig{Type: graphql.NewList(graphql.String)}}, Resolve: echo("l")},
-		"o": &graphql.Field{Type: graphql.String, Args: graphql.FieldConfigArgument{"i": &graphql.ArgumentConfig{Type: in}}, Resolve: echo("o")},
+		"l":   &graphql.Field{Type: graphql.String, Args: graphql.FieldConfigArgument{"xs": &graphql.ArgumentConfig{Type: graphql.NewList(graphql.String)}}, Resolve: echo("l")},
+		"o":   &graphql.Field{Type: graphql.String, Args: graphql.FieldConfigArgument{"i": &graphql.ArgumentConfig{Type: in}}, Resolve: echo("o")},
 		"sub": &graphql.Field{Type: obj, Resolve: func(p graphql.ResolveParams) (interface{}, error) { return map[string]interface{}{}, nil }},
 		"subs": &graphql.Field{Type: graphql.NewList(obj), Resolve: func(p graphql.ResolveParams) (interface{}, error) {
 			return []interface{}{map[string]interface{}{}, map[string]interface{}{}}, nil
@@ -155,6 +164,14 @@ var c06Families = []c06Family{
 		{query: `{i(id:1)}`}, {query: `{i(id:"1")}`}, {query: `{i(id:"01")}`}}},
 	{"abstract", []c06Q{{query: `{any{... on O{x(n:1)}}}`}, {query: `{any{... on O{x(n:2)}}}`}, {query: `{any{y}}`}, {query: `{subs{x(n:1)}}`}, {query: `{subs{x(n:2)}}`}}},
 	{"mutation", []c06Q{{query: `mutation{set(n:1)}`}, {query: `mutation{set(n:2)}`}, {query: `mutation{a:set(n:1) b:set(n:1)}`}, {query: `mutation{a:set(n:1) b:set(n:2)}`}}},
+	// the same literal text at argument positions of different input types within one operation
+	{"samelit", []c06Q{{query: `{f(n:1) ratio(x:1)}`}, {query: `{ratio(x:1) f(n:1)}`}, {query: `{s(t:"7") i(id:"7")}`}, {query: `{i(id:"7") s(t:"7")}`},
+		{query: `{i(id:1) f(n:1)}`}, {query: `{f(n:1) req(n:1)}`}, {query: `{req(n:1) f(n:1)}`}, {query: `{l(xs:"a") s(t:"a")}`}, {query: `{s(t:"a") l(xs:"a")}`},
+		{query: `{li(xs:1) f(n:1)}`}, {query: `{li(xs:[1]) l(xs:[1])}`}, {query: `{e2(c:ON) s(t:"ON")}`}, {query: `{f(n:1) sub{x(n:1)} g(p:1,q:1)}`},
+		{query: `{f(n:2) ratio(x:2) i(id:2) li(xs:2) req(n:2)}`}, {query: `{o(i:{a:1}) f(n:1) ratio(x:1)}`}, {query: `{ratio(x:1.0) f(n:1)}`}}},
+	// literals that are not valid for their position
+	{"illtyped", []c06Q{{query: `{li(xs:["a"])}`}, {query: `{li(xs:[1,"a"])}`}, {query: `{l(xs:[1])}`}, {query: `{o(i:{a:"x"})}`}, {query: `{li(xs:[1])}`},
+		{query: `{b2(v:1)}`}, {query: `{b2(v:true)}`}, {query: `{e2(c:"ON")}`}, {query: `{e2(c:ON)}`}, {query: `{req(n:null)}`}, {query: `{ratio(x:"1")}`}}},
 	{"variable", []c06Q{{query: `query($v:Int){f(n:$v)}`, vars: c06V(nil, map[string]interface{}{"v": 1}, map[string]interface{}{"v": 2})},
 		{query: `query($v:Int!){f(n:$v)}`, vars: c06V(nil, map[string]interface{}{"v": 1}, map[string]interface{}{"v": "bad"})},
 		{query: `query($v:Int){f(n:$v) g(p:1)}`, vars: c06V(nil, map[string]interface{}{"v": 1})},
